@@ -32,7 +32,7 @@ static Node* parse(void) {
     case 't': n->tag = PTICK; n->n = atoi(t+1); break;
     case ';': n->tag = PSEQ; n->a = parse(); n->b = parse(); break;
     case '!': n->tag = PTHROW; n->n = atoi(t+1); n->m = strchr(t, ',') ? atoi(strchr(t, ',')+1) : 0;
-              if (n->n / 10 >= NKIND || n->n % 10 >= NVAR) { P("BADCASE"); fflush(OUT); _exit(0); }
+              if (n->n / 10 >= 4 || n->n % 10 >= NVAR)   /* the compiled filters know kinds 0..3 */ { P("BADCASE"); fflush(OUT); _exit(0); }
               break;
     case 'T': n->tag = PTRY;
               for (char* c = t+1; *c; ) { int o = atoi(c); n->mask |= 1 << ((o / 10) & 3);
